@@ -359,4 +359,472 @@ theorem matchLookaheadI_erase (c : Ctx) (n : Nat) (fn : Nat → Nat → Bool) (s
     | error e => rfl
     | ok it => exact matchLookaheadI.loop_erase c n _
 
+/-! ### span lemmas: where the reads lie -/
+
+theorem It.new_ok {c : Ctx} {s : Nat} {cm : Bool} {it : It} (h : It.new c s cm = .ok it) :
+    it.idx = s ∧ it.bufLen = c.buf.len := by
+  unfold It.new at h
+  simp only [bind, Except.bind] at h
+  split at h
+  · cases hg : get c.buf.info c.buf.idx with
+    | error e => simp [hg] at h
+    | ok x =>
+      simp only [hg, pure, Except.pure, Except.ok.injEq] at h
+      subst h; exact ⟨rfl, rfl⟩
+  · simp only [pure, Except.pure, Except.ok.injEq] at h
+    subst h; exact ⟨rfl, rfl⟩
+
+/-- where `It.nextI` reads: the indices after the old position up to the new one -/
+theorem It.nextI_span (f : Font) (info : List Info) : ∀ (fuel : Nat) (it : It) (found : Bool) (it' : It) (u : Nat)
+    (rs : List Nat), It.nextI it f info fuel = .ok ((found, it', u), rs) →
+    it'.bufLen = it.bufLen ∧ it.idx ≤ it'.idx ∧ (it.idx < it.bufLen → it'.idx < it.bufLen) ∧
+    (∀ i ∈ rs, it.idx < i ∧ i ≤ it'.idx) ∧
+    (found = true → it'.idx ∈ rs) ∧ (found = false → u = it'.idx + 1) := by
+  intro fuel
+  induction fuel with
+  | zero =>
+    intro it found it' u rs h
+    simp only [It.nextI, pure, Except.pure, Except.ok.injEq, Prod.mk.injEq] at h
+    obtain ⟨⟨h1, h2, h3⟩, h4⟩ := h
+    subst h1 h2 h3 h4
+    exact ⟨rfl, Nat.le_refl _, id, by simp, by simp, fun _ => rfl⟩
+  | succ n ih =>
+    intro it found it' u rs h
+    rw [It.nextI] at h
+    split at h
+    · rename_i hlt
+      cases hg : get info (it.idx + 1) with
+      | error e => simp [hg, bind, Except.bind] at h
+      | ok x =>
+        simp only [hg, bind, Except.bind] at h
+        split at h
+        · simp only [pure, Except.pure, Except.ok.injEq, Prod.mk.injEq] at h
+          obtain ⟨⟨h1, h2, h3⟩, h4⟩ := h
+          subst h1 h2 h3 h4
+          exact ⟨rfl, by simp, fun _ => hlt, by simp, by simp, by simp⟩
+        · simp only [pure, Except.pure, Except.ok.injEq, Prod.mk.injEq] at h
+          obtain ⟨⟨h1, h2, h3⟩, h4⟩ := h
+          subst h1 h2 h3 h4
+          exact ⟨rfl, by simp, fun _ => hlt, by simp, by simp, fun _ => rfl⟩
+        · cases hr : It.nextI { it with idx := it.idx + 1 } f info n with
+          | error e => simp [hr] at h
+          | ok v =>
+            obtain ⟨⟨fd, it2, u2⟩, rs2⟩ := v
+            simp only [hr, pure, Except.pure, Except.ok.injEq, Prod.mk.injEq] at h
+            obtain ⟨⟨h1, h2, h3⟩, h4⟩ := h
+            subst h1 h2 h3 h4
+            obtain ⟨a1, a2, a3, a4, a5, a6⟩ := ih _ _ _ _ _ hr
+            simp only at a1 a2 a3 a4
+            refine ⟨a1, by omega, fun _ => a3 hlt, ?_, ?_, a6⟩
+            · intro i hi
+              rcases List.mem_cons.mp hi with hi | hi
+              · subst hi; omega
+              · have := a4 i hi; omega
+            · intro hf; exact List.mem_cons_of_mem _ (a5 hf)
+    · simp only [pure, Except.pure, Except.ok.injEq, Prod.mk.injEq] at h
+      obtain ⟨⟨h1, h2, h3⟩, h4⟩ := h
+      subst h1 h2 h3 h4
+      exact ⟨rfl, Nat.le_refl _, id, by simp, by simp, fun _ => rfl⟩
+
+/-- where `It.prevI` reads: the indices below the old position down to the new one; on failure `unsafe_from` is at or below
+    every index read -/
+theorem It.prevI_span (f : Font) (out : List Info) : ∀ (fuel : Nat) (it : It) (found : Bool) (it' : It) (u : Nat)
+    (rs : List Nat), It.prevI it f out fuel = .ok ((found, it', u), rs) →
+    it'.bufLen = it.bufLen ∧ it'.idx ≤ it.idx ∧
+    (∀ i ∈ rs, it'.idx ≤ i ∧ i < it.idx) ∧
+    (found = true → it'.idx ∈ rs) ∧ (found = false → u ≤ it'.idx) := by
+  intro fuel
+  induction fuel with
+  | zero =>
+    intro it found it' u rs h
+    simp only [It.prevI, pure, Except.pure, Except.ok.injEq, Prod.mk.injEq] at h
+    obtain ⟨⟨h1, h2, h3⟩, h4⟩ := h
+    subst h1 h2 h3 h4
+    exact ⟨rfl, Nat.le_refl _, by simp, by simp, fun _ => Nat.zero_le _⟩
+  | succ n ih =>
+    intro it found it' u rs h
+    rw [It.prevI] at h
+    split at h
+    · rename_i hlt
+      cases hg : get out (it.idx - 1) with
+      | error e => simp [hg, bind, Except.bind] at h
+      | ok x =>
+        simp only [hg, bind, Except.bind] at h
+        split at h
+        · simp only [pure, Except.pure, Except.ok.injEq, Prod.mk.injEq] at h
+          obtain ⟨⟨h1, h2, h3⟩, h4⟩ := h
+          subst h1 h2 h3 h4
+          refine ⟨rfl, by simp, ?_, by simp, by simp⟩
+          intro i hi; simp at hi; subst hi; simp; omega
+        · simp only [pure, Except.pure, Except.ok.injEq, Prod.mk.injEq] at h
+          obtain ⟨⟨h1, h2, h3⟩, h4⟩ := h
+          subst h1 h2 h3 h4
+          refine ⟨rfl, by simp, ?_, by simp, ?_⟩
+          · intro i hi; simp at hi; subst hi; simp; omega
+          · intro _; simp only; omega
+        · cases hr : It.prevI { it with idx := it.idx - 1 } f out n with
+          | error e => simp [hr] at h
+          | ok v =>
+            obtain ⟨⟨fd, it2, u2⟩, rs2⟩ := v
+            simp only [hr, pure, Except.pure, Except.ok.injEq, Prod.mk.injEq] at h
+            obtain ⟨⟨h1, h2, h3⟩, h4⟩ := h
+            subst h1 h2 h3 h4
+            obtain ⟨a1, a2, a4, a5, a6⟩ := ih _ _ _ _ _ hr
+            simp only at a1 a2 a4
+            refine ⟨a1, by omega, ?_, ?_, a6⟩
+            · intro i hi
+              rcases List.mem_cons.mp hi with hi | hi
+              · subst hi; omega
+              · have := a4 i hi; omega
+            · intro hf; exact List.mem_cons_of_mem _ (a5 hf)
+    · simp only [pure, Except.pure, Except.ok.injEq, Prod.mk.injEq] at h
+      obtain ⟨⟨h1, h2, h3⟩, h4⟩ := h
+      subst h1 h2 h3 h4
+      exact ⟨rfl, Nat.le_refl _, by simp, by simp, fun _ => Nat.zero_le _⟩
+
+/-- the lig-base scan reads out-buffer glyphs below `n` only -/
+theorem findLigBaseI_span (out : List Info) (fl : Nat) : ∀ (n : Nat) (r : Bool × Nat) (rs : List Rd),
+    findLigBaseI out fl n = .ok (r, rs) → ∀ x ∈ rs, ∃ j, x = .out j ∧ j < n := by
+  intro n
+  induction n with
+  | zero =>
+    intro r rs h
+    simp only [findLigBaseI, pure, Except.pure, Except.ok.injEq, Prod.mk.injEq] at h
+    obtain ⟨_, h2⟩ := h; subst h2; simp
+  | succ n ih =>
+    intro r rs h
+    rw [findLigBaseI] at h
+    cases hg : get out n with
+    | error e => simp [hg, bind, Except.bind] at h
+    | ok x =>
+      simp only [hg, bind, Except.bind] at h
+      split at h
+      · split at h
+        · simp only [pure, Except.pure, Except.ok.injEq, Prod.mk.injEq] at h
+          obtain ⟨_, h2⟩ := h; subst h2
+          intro y hy; simp at hy; exact ⟨n, hy, by omega⟩
+        · cases hr : findLigBaseI out fl n with
+          | error e => simp [hr] at h
+          | ok v =>
+            obtain ⟨r2, rs2⟩ := v
+            simp only [hr, pure, Except.pure, Except.ok.injEq, Prod.mk.injEq] at h
+            obtain ⟨_, h2⟩ := h; subst h2
+            intro y hy
+            rcases List.mem_cons.mp hy with hy | hy
+            · exact ⟨n, hy, by omega⟩
+            · obtain ⟨j, e1, e2⟩ := ih _ _ hr y hy
+              exact ⟨j, e1, by omega⟩
+      · simp only [pure, Except.pure, Except.ok.injEq, Prod.mk.injEq] at h
+        obtain ⟨_, h2⟩ := h; subst h2
+        intro y hy; simp at hy; exact ⟨n, hy, by omega⟩
+
+/-- the ligature-component rules read out-buffer glyphs only -/
+theorem ligStepI_span (c : Ctx) (it : It) (fl fc : Nat) (this : Info) (lb : Nat) (o : Option Nat) (rs : List Rd)
+    (h : ligStepI c it fl fc this lb = .ok (o, rs)) : ∀ x ∈ rs, ∃ j, x = .out j ∧ j < c.buf.outLen := by
+  unfold ligStepI at h
+  split at h
+  · split at h
+    · split at h
+      · cases hr : findLigBaseI c.buf.outArr fl c.buf.outLen with
+        | error e => simp [hr, bind, Except.bind] at h
+        | ok v =>
+          obtain ⟨⟨fnd, j⟩, rs2⟩ := v
+          have hs := findLigBaseI_span _ _ _ _ _ hr
+          simp only [hr, bind, Except.bind] at h
+          cases fnd with
+          | true =>
+            simp only [if_true] at h
+            cases hg : get c.buf.outArr j with
+            | error e => simp [hg] at h
+            | ok ob =>
+              simp only [hg, pure, Except.pure] at h
+              cases hm : (it.maySkip c.font ob == Skip.yes) <;> simp [hm] at h <;>
+                (obtain ⟨_, h2⟩ := h; subst h2; exact hs)
+          | false =>
+            simp only [Bool.false_eq_true, if_false, pure, Except.pure] at h
+            split at h <;> (simp only [Except.ok.injEq, Prod.mk.injEq] at h; obtain ⟨_, h2⟩ := h; subst h2; exact hs)
+      · simp only [bind, Except.bind, pure, Except.pure] at h
+        split at h <;> (simp only [Except.ok.injEq, Prod.mk.injEq] at h; obtain ⟨_, h2⟩ := h; subst h2; simp)
+    · simp only [pure, Except.pure, Except.ok.injEq, Prod.mk.injEq] at h
+      obtain ⟨_, h2⟩ := h; subst h2; simp
+  · split at h <;>
+      (simp only [pure, Except.pure, Except.ok.injEq, Prod.mk.injEq] at h; obtain ⟨_, h2⟩ := h; subst h2; simp)
+
+/-- what a read of `match_input` (started with the iterator at `lo`) may be: an in-buffer glyph after `lo`, below `len`, and
+    — unless the matcher returned through the ligature-component rules — below the reported `end_position`; or an out-buffer
+    glyph of the lig-base scan -/
+def RdOk (c : Ctx) (lo : Nat) (R : MatchInI) (x : Rd) : Prop :=
+  (∃ i, x = .inp i ∧ lo < i ∧ i < c.buf.len ∧ (R.why ≠ .ligComp → i < R.r.endPos)) ∨
+  (∃ j, x = .out j ∧ j < c.buf.outLen)
+
+theorem matchInputI.loop_span (c : Ctx) (fl fc : Nat) : ∀ (rest : Nat) (it : It) (p : List Nat) (t lb k : Nat)
+    (R : MatchInI), matchInputI.loop c fl fc it p t lb k rest = .ok R → it.bufLen = c.buf.len → it.idx < c.buf.len →
+    (R.r.ok = true ↔ R.why = .matched) ∧ R.why ≠ .tooLong ∧ (R.why = .ligComp → R.r.endPos = 0) ∧
+    (R.why ≠ .ligComp → it.idx < R.r.endPos ∧ R.r.endPos ≤ c.buf.len) ∧
+    (∀ x ∈ R.reads, RdOk c it.idx R x) := by
+  intro rest
+  induction rest with
+  | zero =>
+    intro it p t lb k R h hbl hidx
+    simp only [matchInputI.loop, pure, Except.pure, Except.ok.injEq] at h
+    subst h
+    refine ⟨by simp, by simp, by simp, fun _ => ⟨by simp, by simp; omega⟩, by simp⟩
+  | succ n ih =>
+    intro it p t lb k R h hbl hidx
+    rw [matchInputI.loop] at h
+    cases hn : It.nextI it c.font c.buf.info c.buf.len with
+    | error e => simp [hn, bind, Except.bind] at h
+    | ok v =>
+      obtain ⟨⟨found, it', u⟩, rs⟩ := v
+      obtain ⟨b1, b2, b3, b4, b5, b6⟩ := It.nextI_span _ _ _ _ _ _ _ _ hn
+      have hi' : it'.idx < c.buf.len := by rw [← hbl]; exact b3 (by omega)
+      simp only [hn, bind, Except.bind] at h
+      cases found with
+      | false =>
+        simp only [Bool.not_false, if_true, pure, Except.pure, Except.ok.injEq] at h
+        subst h
+        have hu := b6 rfl
+        refine ⟨by simp, by simp, by simp, fun _ => ⟨by simp; omega, by simp; omega⟩, ?_⟩
+        intro x hx
+        obtain ⟨i, hi, rfl⟩ := List.mem_map.mp hx
+        have := b4 i hi
+        exact Or.inl ⟨i, rfl, by omega, by omega, fun _ => by simp; omega⟩
+      | true =>
+        have hlt : it.idx < it'.idx := (b4 _ (b5 rfl)).1
+        simp only [Bool.not_true, Bool.false_eq_true, if_false] at h
+        cases hg : get c.buf.info it'.idx with
+        | error e => simp [hg] at h
+        | ok this =>
+          simp only [hg] at h
+          cases hl : ligStepI c it' fl fc this lb with
+          | error e => simp [hl] at h
+          | ok w =>
+            obtain ⟨o, rs2⟩ := w
+            have hs2 := ligStepI_span _ _ _ _ _ _ _ _ hl
+            simp only [hl] at h
+            cases o with
+            | none =>
+              simp only [pure, Except.pure, Except.ok.injEq] at h
+              subst h
+              refine ⟨by simp, by simp, by simp, by simp, ?_⟩
+              intro x hx
+              rcases List.mem_append.mp hx with hx | hx
+              · obtain ⟨i, hi, rfl⟩ := List.mem_map.mp hx
+                have := b4 i hi
+                exact Or.inl ⟨i, rfl, by omega, by omega, by simp⟩
+              · exact Or.inr (hs2 x hx)
+            | some lb' =>
+              simp only [] at h
+              cases hr : matchInputI.loop c fl fc it' (p.set k it'.idx) (t + ligNumComps this) lb' (k + 1) n with
+              | error e => simp [hr] at h
+              | ok r =>
+                simp only [hr, pure, Except.pure, Except.ok.injEq] at h
+                subst h
+                obtain ⟨c1, c2, c3, c4, c5⟩ := ih _ _ _ _ _ _ hr (by rw [b1, hbl]) hi'
+                refine ⟨c1, c2, c3, fun hw => ⟨by have := c4 hw; simp only; omega, (c4 hw).2⟩, ?_⟩
+                intro x hx
+                simp only at hx
+                rcases List.mem_append.mp hx with hx | hx
+                · rcases List.mem_append.mp hx with hx | hx
+                  · obtain ⟨i, hi, rfl⟩ := List.mem_map.mp hx
+                    have := b4 i hi
+                    exact Or.inl ⟨i, rfl, by omega, by omega, fun hw => by have := c4 hw; simp only; omega⟩
+                  · exact Or.inr (hs2 x hx)
+                · rcases c5 x hx with ⟨i, e1, e2, e3, e4⟩ | hj
+                  · exact Or.inl ⟨i, e1, by omega, e3, e4⟩
+                  · exact Or.inr hj
+
+/-- what a read of `match_input` may be: an in-buffer glyph of `[idx, len)` that — unless the matcher returned through the
+    ligature-component rules — lies below the reported `end_position`; or an out-buffer glyph of the lig-base scan -/
+def Covered (c : Ctx) (R : MatchInI) (x : Rd) : Prop :=
+  (∃ i, x = .inp i ∧ c.buf.idx ≤ i ∧ i < c.buf.len ∧ (R.why ≠ .ligComp → i < R.r.endPos)) ∨
+  (∃ j, x = .out j ∧ j < c.buf.outLen)
+
+/-- **the reads of match_input lie in `[idx, end_position)`** (and in the out-buffer for the lig-base scan); the three
+    ligature-component `return false` paths report `end_position = 0` (never written) -/
+theorem matchInputI_span (c : Ctx) (n : Nat) (fn : Nat → Nat → Bool) (p : List Nat) (R : MatchInI)
+    (h : matchInputI c n fn p = .ok R) (hidx : c.buf.idx < c.buf.len) :
+    (R.r.ok = true ↔ R.why = .matched) ∧ (R.why = .tooLong → R.reads = [] ∧ R.r.endPos = 0) ∧
+    (R.why = .ligComp → R.r.endPos = 0) ∧
+    (R.why = .matched ∨ R.why = .iter → c.buf.idx < R.r.endPos ∧ R.r.endPos ≤ c.buf.len) ∧
+    (∀ x ∈ R.reads, Covered c R x) := by
+  unfold matchInputI at h
+  by_cases hc : n + 1 > MAX_CONTEXT_LENGTH
+  · simp only [hc, if_true, pure, Except.pure, Except.ok.injEq] at h
+    subst h
+    simp
+  · simp only [hc, if_false, bind, Except.bind] at h
+    cases hit : It.new c c.buf.idx false with
+    | error e => simp [hit] at h
+    | ok it =>
+      obtain ⟨i1, i2⟩ := It.new_ok hit
+      simp only [hit] at h
+      cases hg : get c.buf.info c.buf.idx with
+      | error e => simp [hg] at h
+      | ok first =>
+        simp only [hg] at h
+        generalize hr : matchInputI.loop c (ligId first) (ligComp first) _ _ 0 0 1 _ = lr at h
+        cases lr with
+        | error e => simp at h
+        | ok r =>
+          simp only [] at h
+          obtain ⟨c1, c2, c3, c4, c5⟩ := matchInputI.loop_span _ _ _ _ _ _ _ _ _ _ hr i2 (by simp only [i1]; exact hidx)
+          simp only [i1] at c4 c5
+          have key : ∀ R' : MatchInI, R'.why = r.why → R'.r.endPos = r.r.endPos → R'.r.ok = r.r.ok →
+              R'.reads = .inp c.buf.idx :: r.reads →
+              (R'.r.ok = true ↔ R'.why = .matched) ∧ (R'.why = .tooLong → R'.reads = [] ∧ R'.r.endPos = 0) ∧
+              (R'.why = .ligComp → R'.r.endPos = 0) ∧
+              (R'.why = .matched ∨ R'.why = .iter → c.buf.idx < R'.r.endPos ∧ R'.r.endPos ≤ c.buf.len) ∧
+              (∀ x ∈ R'.reads, Covered c R' x) := by
+            intro R' e1 e2 e3 e4
+            rw [e1, e2, e3, e4]
+            refine ⟨c1, fun hw => absurd hw c2, c3, ?_, ?_⟩
+            · intro hw
+              apply c4
+              rcases hw with hw | hw <;> simp [hw]
+            · intro x hx
+              unfold Covered
+              rw [e1, e2]
+              rcases List.mem_cons.mp hx with hx | hx
+              · subst hx
+                exact Or.inl ⟨_, rfl, Nat.le_refl _, hidx, fun hw => (c4 hw).1⟩
+              · rcases c5 x hx with ⟨i, a1, a2, a3, a4⟩ | hj
+                · exact Or.inl ⟨i, a1, by omega, a3, a4⟩
+                · exact Or.inr hj
+          split at h
+          · simp only [pure, Except.pure, Except.ok.injEq] at h
+            subst h
+            exact key _ rfl rfl rfl rfl
+          · simp only [pure, Except.pure, Except.ok.injEq] at h
+            subst h
+            exact key _ rfl rfl rfl rfl
+
+theorem matchLookaheadI.loop_span (c : Ctx) : ∀ (n : Nat) (it : It) (ok : Bool) (e : Nat) (rs : List Nat),
+    matchLookaheadI.loop c it n = .ok ((ok, e), rs) → it.bufLen = c.buf.len → it.idx < c.buf.len →
+    it.idx < e ∧ e ≤ c.buf.len ∧ ∀ i ∈ rs, it.idx < i ∧ i < e := by
+  intro n
+  induction n with
+  | zero =>
+    intro it ok e rs h hbl hidx
+    simp only [matchLookaheadI.loop, pure, Except.pure, Except.ok.injEq, Prod.mk.injEq] at h
+    obtain ⟨⟨_, h2⟩, h3⟩ := h
+    subst h2 h3
+    exact ⟨by omega, by omega, by simp⟩
+  | succ n ih =>
+    intro it ok e rs h hbl hidx
+    rw [matchLookaheadI.loop] at h
+    cases hn : It.nextI it c.font c.buf.info c.buf.len with
+    | error e => simp [hn, bind, Except.bind] at h
+    | ok v =>
+      obtain ⟨⟨found, it', u⟩, rs1⟩ := v
+      obtain ⟨b1, b2, b3, b4, b5, b6⟩ := It.nextI_span _ _ _ _ _ _ _ _ hn
+      have hi' : it'.idx < c.buf.len := by rw [← hbl]; exact b3 (by omega)
+      simp only [hn, bind, Except.bind] at h
+      cases found with
+      | false =>
+        simp only [Bool.not_false, if_true, pure, Except.pure, Except.ok.injEq, Prod.mk.injEq] at h
+        obtain ⟨⟨_, h2⟩, h3⟩ := h
+        subst h2 h3
+        have hu := b6 rfl
+        refine ⟨by omega, by omega, ?_⟩
+        intro i hi
+        have := b4 i hi
+        omega
+      | true =>
+        have hlt : it.idx < it'.idx := (b4 _ (b5 rfl)).1
+        simp only [Bool.not_true, Bool.false_eq_true, if_false] at h
+        cases hr : matchLookaheadI.loop c it' n with
+        | error e => simp [hr] at h
+        | ok w =>
+          obtain ⟨⟨ok2, e2⟩, rs2⟩ := w
+          simp only [hr, pure, Except.pure, Except.ok.injEq, Prod.mk.injEq] at h
+          obtain ⟨⟨_, h2⟩, h3⟩ := h
+          subst h2 h3
+          obtain ⟨c1, c2, c3⟩ := ih _ _ _ _ hr (by rw [b1, hbl]) hi'
+          refine ⟨by omega, c2, ?_⟩
+          intro i hi
+          rcases List.mem_append.mp hi with hi | hi
+          · have := b4 i hi; omega
+          · have := c3 i hi; omega
+
+/-- **the reads of match_lookahead lie in `[start_index, end_index)`**, on success and on failure -/
+theorem matchLookaheadI_span (c : Ctx) (n : Nat) (fn : Nat → Nat → Bool) (s : Nat) (ok : Bool) (e : Nat) (rs : List Nat)
+    (h : matchLookaheadI c n fn s = .ok ((ok, e), rs)) (hs : s ≤ c.buf.len) :
+    s ≤ e ∧ e ≤ c.buf.len ∧ ∀ i ∈ rs, s ≤ i ∧ i < e := by
+  unfold matchLookaheadI at h
+  by_cases h0 : s = 0
+  · simp [h0, throw, throwThe, MonadExceptOf.throw, bind, Except.bind] at h
+  · simp only [h0, if_false, bind, Except.bind] at h
+    cases hit : It.new c (s - 1) true with
+    | error e => simp [hit] at h
+    | ok it =>
+      obtain ⟨i1, i2⟩ := It.new_ok hit
+      simp only [hit] at h
+      obtain ⟨c1, c2, c3⟩ := matchLookaheadI.loop_span c n _ ok e rs h i2 (by simp only [i1]; omega)
+      simp only [i1] at c1 c3
+      refine ⟨by omega, c2, ?_⟩
+      intro i hi
+      have := c3 i hi
+      omega
+
+theorem matchBacktrackI.loop_span (c : Ctx) : ∀ (n : Nat) (it : It) (ok : Bool) (st : Nat) (rs : List Nat),
+    matchBacktrackI.loop c it n = .ok ((ok, st), rs) → st ≤ it.idx ∧ ∀ i ∈ rs, st ≤ i ∧ i < it.idx := by
+  intro n
+  induction n with
+  | zero =>
+    intro it ok st rs h
+    simp only [matchBacktrackI.loop, pure, Except.pure, Except.ok.injEq, Prod.mk.injEq] at h
+    obtain ⟨⟨_, h2⟩, h3⟩ := h
+    subst h2 h3
+    exact ⟨Nat.le_refl _, by simp⟩
+  | succ n ih =>
+    intro it ok st rs h
+    rw [matchBacktrackI.loop] at h
+    cases hn : It.prevI it c.font c.buf.outArr (it.idx + 1) with
+    | error e => simp [hn, bind, Except.bind] at h
+    | ok v =>
+      obtain ⟨⟨found, it', u⟩, rs1⟩ := v
+      obtain ⟨b1, b2, b4, b5, b6⟩ := It.prevI_span _ _ _ _ _ _ _ _ hn
+      simp only [hn, bind, Except.bind] at h
+      cases found with
+      | false =>
+        simp only [Bool.not_false, if_true, pure, Except.pure, Except.ok.injEq, Prod.mk.injEq] at h
+        obtain ⟨⟨_, h2⟩, h3⟩ := h
+        subst h2 h3
+        have hu := b6 rfl
+        refine ⟨by omega, ?_⟩
+        intro i hi
+        have := b4 i hi
+        omega
+      | true =>
+        simp only [Bool.not_true, Bool.false_eq_true, if_false] at h
+        cases hr : matchBacktrackI.loop c it' n with
+        | error e => simp [hr] at h
+        | ok w =>
+          obtain ⟨⟨ok2, e2⟩, rs2⟩ := w
+          simp only [hr, pure, Except.pure, Except.ok.injEq, Prod.mk.injEq] at h
+          obtain ⟨⟨_, h2⟩, h3⟩ := h
+          subst h2 h3
+          obtain ⟨c1, c3⟩ := ih _ _ _ _ hr
+          refine ⟨by omega, ?_⟩
+          intro i hi
+          rcases List.mem_append.mp hi with hi | hi
+          · have := b4 i hi; omega
+          · have := c3 i hi; omega
+
+/-- **the reads of match_backtrack lie in `[match_start, backtrack_len)`** of the out-buffer, on success and on failure -/
+theorem matchBacktrackI_span (c : Ctx) (n : Nat) (fn : Nat → Nat → Bool) (ok : Bool) (st : Nat) (rs : List Nat)
+    (h : matchBacktrackI c n fn = .ok ((ok, st), rs)) :
+    st ≤ (if c.buf.haveOutput then c.buf.outLen else c.buf.idx) ∧
+    ∀ i ∈ rs, st ≤ i ∧ i < (if c.buf.haveOutput then c.buf.outLen else c.buf.idx) := by
+  unfold matchBacktrackI at h
+  simp only [bind, Except.bind] at h
+  cases hit : It.new c (if c.buf.haveOutput then c.buf.outLen else c.buf.idx) true with
+  | error e => simp [hit] at h
+  | ok it =>
+    obtain ⟨i1, i2⟩ := It.new_ok hit
+    simp only [hit] at h
+    have := matchBacktrackI.loop_span c n _ ok st rs h
+    simp only [i1] at this
+    exact this
 end RbModel.Gsub
